@@ -2,6 +2,7 @@ package main
 
 import (
 	"fmt"
+	"go/ast"
 	"go/token"
 	"go/types"
 	"sort"
@@ -326,4 +327,88 @@ func (nt *nilTaint) analyseFn(fn *ssa.Function) ([]nilSite, []taintCall) {
 		})
 	}
 	return sites, calls
+}
+
+// ---------------------------------------------------------------------------------------------
+// D1-nil-local (round 9): a local pointer that is nil on some path into a merge point (a phi with
+// a nil constant among its transitive inputs: `var cur *T` assigned in one branch of a loop) is
+// dereferenced only where a non-nil fact of that very value holds (dominating `cur != nil` test, or
+// the error return of the `cur == nil` branch). The input decides which branch runs, so an
+// unguarded dereference is a content-triggered panic.
+// ---------------------------------------------------------------------------------------------
+
+func nilLocalDerefs(p *Prog, r *Report, rule string, fns []*ssa.Function, audited map[string]auditEntry) {
+	nphi, nsites := 0, 0
+	for _, fn := range fns {
+		pk := p.pkgOfFn(fn)
+		if pk != nil && p.isGenerated(pk, fn.Pos()) {
+			continue
+		}
+		maybeNil := map[ssa.Value]bool{}
+		forEachInstr(fn, func(_ *ssa.BasicBlock, _ int, in ssa.Instruction) {
+			ph, ok := in.(*ssa.Phi)
+			if !ok || !isPtrToStruct(ph.Type()) {
+				return
+			}
+			for _, e := range ph.Edges {
+				if c, ok := e.(*ssa.Const); ok && c.IsNil() {
+					maybeNil[ph] = true
+				}
+			}
+		})
+		if len(maybeNil) == 0 {
+			continue
+		}
+		for changed := true; changed; {
+			changed = false
+			forEachInstr(fn, func(_ *ssa.BasicBlock, _ int, in ssa.Instruction) {
+				if ph, ok := in.(*ssa.Phi); ok && !maybeNil[ph] {
+					for _, e := range ph.Edges {
+						if maybeNil[e] {
+							maybeNil[ph] = true
+							changed = true
+						}
+					}
+				}
+			})
+		}
+		nphi += len(maybeNil)
+		c := newBoundsCtx(p, fn)
+		c.noParamFacts = true
+		forEachInstr(fn, func(_ *ssa.BasicBlock, _ int, in ssa.Instruction) {
+			var ptr ssa.Value
+			switch x := in.(type) {
+			case *ssa.FieldAddr:
+				ptr = x.X
+			case *ssa.UnOp:
+				if x.Op == token.MUL {
+					ptr = x.X
+				}
+			}
+			if ptr == nil || !maybeNil[ptr] {
+				return
+			}
+			nsites++
+			e := p.exprAt(fn, in.Pos(), func(n ast.Node) bool {
+				switch n.(type) {
+				case *ast.SelectorExpr, *ast.StarExpr:
+					return true
+				}
+				return false
+			})
+			site := fnKey(fn) + ":nil-local:" + e
+			if c.graphFor(in).nn[c.key(ptr)] {
+				r.OK(rule, site, p.Pos(in.Pos()), "a non-nil fact of the pointer holds here")
+				return
+			}
+			if a, ok := audited[site]; ok {
+				r.Audit(rule, site, p.Pos(in.Pos()), a.reason)
+				return
+			}
+			r.Fail(rule, site, p.Pos(in.Pos()), "dereference of a local pointer that is still nil on some path into this point (no dominating nil test of it): which path runs is decided by the file content")
+		})
+	}
+	r.Count("possibly-nil local pointers (phi with a nil input)", nphi)
+	r.Count("dereferences of possibly-nil local pointers", nsites)
+	r.Instances(rule, "dereferences of possibly-nil local pointers", nsites, 2)
 }
